@@ -36,17 +36,41 @@ class CoreMixin:
         self.unknowns.append(n)
         return n
 
-    def res(self, n: Node, st: St) -> Node:
-        """current contents of the object denoted by identity node n"""
+    def res(self, n: Node, st: St, _guard=None) -> Node:
+        """current contents of the object denoted by identity node n (looks through Phi
+        alternatives, which are references too).  An identity node met again while its own
+        versions are being resolved stands for its original contents."""
+        cur = st.cur
+        if not cur:
+            return n
+        if _guard is not None and n.id in _guard:
+            return n
+        path = None
         seen = 0
         while True:
-            v = st.cur.get(n.id)
+            v = cur.get(n.id)
             if v is None or v is n:
-                return n
+                break
+            if path is None:
+                path = set()
+            path.add(n.id)
             n = v
             seen += 1
             if seen > 10000:
                 raise RuntimeError("version chain loop")
+        if n.op == "Phi":
+            g = _guard
+            if path:
+                g = (set(_guard) | path) if _guard else path
+            a, b = self.res(n.args[1], st, g), self.res(n.args[2], st, g)
+            if a is not n.args[1] or b is not n.args[2]:
+                key = (n.id, a.id, b.id)
+                m = self._phi_res_memo.get(key)
+                if m is None:
+                    m = self.phi(n.args[0], a, b, n.site)
+                    self._phi_res_memo[key] = m
+                return m
+        return n
 
     def site_of(self, astnode, fr: Frame):
         return (fr.module.relpath, getattr(astnode, "lineno", 0), getattr(astnode, "col_offset", 0))
@@ -59,6 +83,11 @@ class CoreMixin:
 
     # ------------------------------------------------------------------ Phi / folding helpers
     def phi(self, c: Node, a: Node, b: Node, site=None) -> Node:
+        # nested merges over the same condition collapse to the matching arm
+        if a.op == "Phi" and a.args[0] is c:
+            a = a.args[1]
+        if b.op == "Phi" and b.args[0] is c:
+            b = b.args[2]
         if a is b:
             return a
         if a.op == "Undefined":
@@ -173,8 +202,10 @@ class CoreMixin:
         return None
 
     def roots(self, n: Node, _depth=0) -> List[Node]:
-        """identity nodes of pre-existing objects (inputs, instance state, globals, captured,
-        external objects) that n may be a mutable view of; [] = fresh in this analysis"""
+        """ultimate objects that identity node n may be a mutable view of (follows views,
+        Phi alternatives and container elements).  Whether such an object pre-exists the entry
+        point under analysis is decided by the rules (node id below the entry's first node,
+        Input, State, module global)."""
         out = []
         seen = set()
         stack = [n]
@@ -183,24 +214,19 @@ class CoreMixin:
             if x.id in seen:
                 continue
             seen.add(x.id)
-            if x.op in ("Input", "State", "Global", "Cfg"):
-                out.append(x)
-            elif x.op == "Phi":
+            if x.op == "Phi":
                 stack.extend(x.args[1:])
-            elif x.op in ("Elem", "IterElem", "NdChunk"):
+                continue
+            if x.op in ("Elem", "IterElem", "NdChunk", "Starred"):
                 stack.append(x.args[0])
-            elif x.op == "Attr" and x.extra and x.extra.get("ext_obj_attr"):
-                # attribute of a pre-existing external object
-                b = self.view_base(x)
-                if b is not None:
-                    stack.append(b)
-                out.append(x) if b is None else None
-            else:
-                b = self.view_base(x)
-                if b is not None:
-                    stack.append(b)
-                elif x.op in ("Call", "MCall") and x.extra and x.extra.get("preexisting"):
-                    out.append(x)
+                continue
+            b = self.view_base(x)
+            if b is not None:
+                stack.append(b)
+                continue
+            if x.op in ("Const", "Undefined"):
+                continue
+            out.append(x)
         return out
 
     # ------------------------------------------------------------------ merging
@@ -534,8 +560,15 @@ class CoreMixin:
         rv = self.res(obj, st)
         key = (obj.id, name)
         memo = st.heap.get(key)
-        if memo is not None and memo.op == "Attr" and memo.args and memo.args[0] is rv:
-            return memo
+        if memo is not None and memo.op == "Attr" and memo.args:
+            # still the same object if the parent only changed through writes via its views
+            v = rv
+            guard = 0
+            while v is not memo.args[0] and v.op == "Scatter" and v.attr == "via-view" and guard < 1000:
+                v = v.args[0]
+                guard += 1
+            if v is memo.args[0]:
+                return memo
         n = self.mk("Attr", (rv,), name, site)
         n.extra = {"recv": obj}
         if name in X.VIEW_ATTRS:
